@@ -156,4 +156,20 @@ example : (members toyCodec [(4 : Zq 11), 3] 2 3
 example : recover toyCodec [(4 : Zq 11), 3] 2 [[0, 2, 4], [0, 2, 4, 77], [5], [0, 0, 8]] 2 3
     = .errFew := by decide
 
+theorem toyCodec_roundtrip : ∀ p : Zq 11, toyCodec.decode (toyCodec.encode p) = some p := by
+  rintro ⟨v, hv⟩
+  have h : (UInt8.ofNat v).toNat = v := by
+    simp only [UInt8.toNat_ofNat']; omega
+  simp [toyCodec, h, hv]
+
+/-- the hypotheses of `recover_unique` hold for that list (members 0 and 2 qualify) -/
+example : recover toyCodec [(4 : Zq 11), 3] 2
+    [[0, 9, 200], [0, 2, 4], [0, 2, 4, 77], [5], [0, 0, 8], [0, 0, 3]] 2 3
+    = .ok (blsSign toyCodec (4 : Zq 11) 2) :=
+  recover_unique_driver_scalars 11 toyCodec [(4 : Zq 11), 3] 2 2 3 (by decide) (by decide)
+    (by decide) _ (by decide)
+
+example : validIdx toyCodec [(4 : Zq 11), 3] 2 3 (tblsSign toyCodec [(4 : Zq 11), 3] 2 1) = some 1 :=
+  signed_share_valid toyCodec toyCodec_roundtrip _ _ 3 1 (by decide) (by decide)
+
 end Dos.Props.C02
